@@ -47,6 +47,7 @@ type Stmt struct {
 	ParamOIDs     []uint32      // parameter types declared in Parse
 	Args          []interface{} // MySQL: arguments of a prepared statement (int64, string, []byte, nil)
 	NoParse       bool          // PostgreSQL: execute the statement prepared earlier under Name (no Parse message)
+	IdleBefore    time.Duration // the client stays silent for this long before sending the statement
 	Tag           string        // harness bookkeeping
 }
 
@@ -421,6 +422,11 @@ func (pw *PgWorld) RunSession(clientID string, script []Stmt) *SessionRun {
 			if finished < actors {
 				// nobody can move and not everybody is done: either waiting
 				// for EOF propagation (closes wake readers by themselves) or stuck
+				if clientIdle.Load() {
+					// the client is deliberately silent: let (fake) time pass
+					time.Sleep(time.Second)
+					continue
+				}
 				time.Sleep(time.Millisecond)
 				synctest.Wait()
 				for {
@@ -585,6 +591,18 @@ func (pw *PgWorld) recoverProxy(who string, errCh chan<- base.ProxyError) {
 	}
 }
 
+// clientIdle is set while the scripted client is deliberately silent (the driver lets time pass then).
+var clientIdle atomic.Bool
+
+func clientIdles(d time.Duration) {
+	if d <= 0 {
+		return
+	}
+	clientIdle.Store(true)
+	time.Sleep(d)
+	clientIdle.Store(false)
+}
+
 // runPgClient plays a script over the client end of the connection.
 func runPgClient(conn net.Conn, script []Stmt, results []StmtResult) error {
 	fe := pgproto3.NewFrontend(conn, conn)
@@ -606,6 +624,7 @@ func runPgClient(conn net.Conn, script []Stmt, results []StmtResult) error {
 	}
 	for i, st := range script {
 		res := &results[i]
+		clientIdles(st.IdleBefore)
 		if st.Extended {
 			if !st.NoParse {
 				fe.Send(&pgproto3.Parse{Name: st.Name, Query: st.SQL, ParameterOIDs: st.ParamOIDs})
